@@ -11,6 +11,13 @@ import serve_common as sc
 
 def run(ctx, replay):
     thorough = ctx.tier == "thorough"
+    if replay:
+        # a violation recorded by the Serve driver carries its history: re-run that history alone; anything else is
+        # reproduced by re-running the recorded (tier, seed), which vf.main has already restored
+        import json
+        with open(replay) as f:
+            if sc.replay_record(ctx, json.load(f), "C06"):
+                return
     ctx.cov["rule"] = ("cases = (configuration, history of abstract packets, upstream content) behaviours of Serve.tla, "
                        "concretised to bytes (several byte-level variants per abstract packet) and served by the real "
                        "default chain through three entries; the reply contract is evaluated on the raw bytes of every reply")
@@ -19,6 +26,10 @@ def run(ctx, replay):
     sc.run_family_models(ctx, sc.FAMILIES, thorough)
     sc.regression_model(ctx)
     sc.replay(ctx, "C06", sc.FAMILIES, num=400 if not thorough else 5000, variants=2 if not thorough else 4)
+    # what a RELAYED upstream message may carry in its additional section (two OPT records, the upstream's own cookie /
+    # keepalive / padding / subnet echo in the first, the last or both) against what the client negotiated, through the
+    # scripted tail and through the real forwarder; "foreign options never reflected" is judged on every OPT record
+    sc.relay_family(ctx, "C06", thorough)
     # AD on replies COMPOSED from several cache entries (alias chases on the message, byte and wire-born paths):
     # Lease.tla histories on the real cache, judged by the AD clause only
     ctx.overlay_tags.add("c04")
